@@ -36,15 +36,18 @@ ASSUMPTIONS = ['values are not modelled (C02-C06 cover them); only structure',
                'not modelled: inplace=True variants, reorderDimensions with repeated names in neworder, interpDimension with N-d coordinates, '
                'sliceDimensions newdims other than the default, variables named like a dimension that are not 1-D (sizes differ only there), '
                'numpy apply_along_axis refusing zero-length iteration axes',
-               'eval is modelled for three expression shapes: N = a*2, N = a+b, N = a[0]']
+               'eval is modelled for three expression shapes: N = a*2, N = a+b, N = a[0]',
+               'not generated: eval / reorderDimensions directly on the result of file arithmetic (variables built by pncbo carry numpy.ma _basedict state, '
+               'invisible in the structure, that decides whether fill_value stays listed on derived arrays; any copying operation clears it)',
+               ]
 TECHNIQUE = 'Coq proof (invariant by induction over operation sequences) + vm_compute refutation witnesses + differential correspondence on random operation sequences'
 LEVEL_TEXT = ('Theorems (Props/C01.v, closed under the global context) over a structure-level Gallina model of 14 operations, describing the code '
               'as repaired by fixes/C01-renameDimensions.patch and fixes/C01-binop-broadcast.patch: every step of every operation other than eval, '
               'from any well-formed file, raises or returns a well-formed file with no side condition (C01_step_wf_all_but_eval: renameDimensions with '
               'any pairs, arithmetic with any operand); with eval restricted to shape-preserving expressions the invariant holds over sequences of any '
               'length (C01_step_wf_partial, C01_run_wf_partial, C01_trace_wf_partial); unlimited flags of surviving dimensions are kept '
-              '(C01_step_unlimited_partial, 10 of 14 operations); without the eval side condition the statement is refuted by vm_compute witnesses '
-              'replayed on the library (C01_eval_index_refuted, C01_eval_broadcast_refuted, C01_run_wf_refuted) = known finding. '
+              '(C01_step_unlimited_partial, 13 of 14 operations); without the eval side condition the statement is refuted by vm_compute witnesses '
+              'replayed on the library (C01_eval_index_refuted, C01_eval_broadcast_refuted, C01_run_wf_refuted) = known finding; the completion clause is refuted for scalar-returning callables on a non-leading axis (C01_apply_scalar_completion_refuted) = known finding. '
               'Tie H: structure after every step, incl. raises.')
 LEVEL_NOTE = 'Trusted: Coq kernel + vm_compute; the correspondence harness; numpy broadcasting/slicing rules as modelled; values not modelled.'
 
@@ -59,6 +62,17 @@ def build(init, workdir=None):
     from PseudoNetCDF import PseudoNetCDFFile
     from PseudoNetCDF.core._variables import PseudoNetCDFVariable
     how = init['how']
+    if how == 'ioapi':
+        from PseudoNetCDF.cmaqfiles import ioapi_base
+        nt, nl, nr, nc = init['nt'], init['nl'], init['nr'], init['nc']
+        arrs = {}
+        for i, k in enumerate(init['vars']):
+            arrs[k] = (np.arange(nt * nl * nr * nc, dtype='f') + i).reshape(nt, nl, nr, nc)
+        for i, k in enumerate(init.get('vars2d', [])):
+            arrs[k] = (np.arange(nr * nc, dtype='f') + i).reshape(nr, nc)
+        fa = dict(SDATE=2000001, STIME=0, TSTEP=10000, VGLVLS=np.linspace(1, 0, nl + 1), VGTOP=5000.,
+                  XORIG=0., YORIG=0., XCELL=1000., YCELL=1000., NTHIK=1)
+        return ioapi_base.from_arrays(fileattrs=fa, **arrs)
 
     def fill(v, shape, seed):
         n = 1
@@ -120,8 +134,34 @@ def build(init, workdir=None):
     return f
 
 
+def observe_io(f):
+    """IOAPI-convention files (py oracle only): names stay strings"""
+    dims = [[k, int(len(d)), bool(d.isunlimited())] for k, d in f.dimensions.items()]
+    vs = []
+    for k, v in f.variables.items():
+        vs.append([k, list(v.dimensions), [int(s_) for s_ in v.shape], all(hasattr(v, a) for a in v.ncattrs())])
+    return dict(io=True, dims=dims, vars=vs, gattrs_ok=all(hasattr(f, a) for a in f.ncattrs()), cls=type(f).__name__)
+
+
+def wf_io(st):
+    lens = {k: n for k, n, u in st['dims']}
+    why = []
+    for k, vd, sh, aok in st['vars']:
+        if any(d not in lens for d in vd):
+            why.append('%s names a missing dimension %s' % (k, [d for d in vd if d not in lens]))
+        elif [lens[d] for d in vd] != list(sh):
+            why.append('%s dims %s shape %s but dimension lengths %s' % (k, vd, sh, [lens[d] for d in vd]))
+        if not aok:
+            why.append('%s lists an attribute that is not retrievable' % k)
+    if not st['gattrs_ok']:
+        why.append('file lists an attribute that is not retrievable')
+    return why
+
+
 def observe(f):
     import numpy as np
+    if hasattr(f, 'updatemeta'):
+        return observe_io(f)
     dims = [[nid(k), int(len(d)), bool(d.isunlimited())] for k, d in f.dimensions.items()]
     vs = []
     for k, v in f.variables.items():
@@ -134,7 +174,8 @@ def observe(f):
         if not pseudo and '_FillValue' in v.ncattrs() and 'fill_value' not in v.ncattrs():
             atts.append([nid('fill_value'), True])
         masked = isinstance(v, np.ma.MaskedArray) if pseudo else any(a[0] == 1 for a in atts)
-        vs.append([nid(k), [nid(d) for d in v.dimensions], [int(s) for s in v.shape], bool(masked), sorted(atts)])
+        cellmasked = bool(pseudo and masked and v.ndim == 0 and np.ma.getmaskarray(v).any())
+        vs.append([nid(k), [nid(d) for d in v.dimensions], [int(s) for s in v.shape], bool(masked), sorted(atts), cellmasked])
     ga = sorted([nid(a), bool(hasattr(f, a))] for a in f.ncattrs())
     return dict(dims=dims, vars=vs, gattrs=ga, coords=[nid(k) for k in f.getCoords()])
 
@@ -334,7 +375,7 @@ def cattrs(a):
 
 def cfile(st):
     dims = '[' + '; '.join('(%d, (%d, %s))' % (k, n, C.cbool(u)) for k, n, u in st['dims']) + ']'
-    vs = '[' + '; '.join('(%d, Var %s %s %s)' % (k, cnames(vd), cnames(sh), cattrs(at)) for k, vd, sh, m, at in st['vars']) + ']'
+    vs = '[' + '; '.join('(%d, Var %s %s %s)' % (k, cnames(vd), cnames(sh), cattrs(at)) for k, vd, sh, m, at, cm in st['vars']) + ']'
     return '(File %s %s %s %s)' % (dims, vs, cattrs(st['gattrs']), cnames(st['coords']))
 
 
@@ -403,7 +444,7 @@ def cop(op, oobs):
 
 
 def coq_term(case, obs):
-    if 'raises' in obs:
+    if 'raises' in obs or case['init']['how'] == 'ioapi':
         return None
     n_ok = len(obs['states']) - 1
     real_raise = obs['raised'] is not None and not obs['raised'].startswith('operand:')
@@ -417,7 +458,7 @@ def coq_term(case, obs):
 def wf_state(st):
     lens = {k: n for k, n, u in st['dims']}
     why = []
-    for k, vd, sh, m, at in st['vars']:
+    for k, vd, sh, m, at, cm in st['vars']:
         if any(d not in lens for d in vd):
             why.append('%s names a missing dimension %s' % (NAMES[k], [NAMES[d] for d in vd if d not in lens]))
         elif [lens[d] for d in vd] != list(sh):
@@ -429,9 +470,40 @@ def wf_state(st):
     return why
 
 
+def py_check_io(case, obs):
+    """IOAPI-convention files: well-formedness evaluated directly on the real objects after every step; TSTEP stays unlimited"""
+    why = []
+    region = 0
+    for i, st in enumerate(obs['states']):
+        w = wf_io(st)
+        if st['cls'].startswith('ioapi') and any(k == 'TSTEP' and not u for k, n, u in st['dims']):
+            w.append('IOAPI file whose TSTEP dimension is not unlimited')
+        if w:
+            why.append('after step %d (%s): %s' % (i, json.dumps(case['ops'][i - 1]) if i else 'from_arrays', '; '.join(w)))
+            # known-defect region 3: ROW and COL both selected by index lists (the wrapper then deletes both dimensions)
+            # while some variable carries only one of them and therefore keeps it
+            if i:
+                op = case['ops'][i - 1]
+                lists = {d for d, sel in op.get('sels', []) if sel[0] == 'list'} if op['op'] == 'slice' else set()
+                prev = obs['states'][i - 1]
+                if {'ROW', 'COL'} <= lists and any(('ROW' in vd) != ('COL' in vd) for k, vd, sh, aok in prev['vars']):
+                    region = 3
+            break
+    for i in range(1, len(obs['states'])):
+        a, b = obs['states'][i - 1], obs['states'][i]
+        ub = {k: u for k, n, u in b['dims']}
+        for k, n, u in a['dims']:
+            if k in ub and ub[k] != u:
+                why.append('step %d (%s) changed the unlimited flag of %s' % (i, case['ops'][i - 1]['op'], k))
+                region = 0
+    return dict(s_ok=not why, why='; '.join(why), region=region)
+
+
 def py_check(case, obs):
     if 'raises' in obs:
         return dict(s_ok=False, why='harness failure: %s %s' % (obs.get('raises'), obs.get('msg')))
+    if case['init']['how'] == 'ioapi':
+        return py_check_io(case, obs)
     why = []
     for i, st in enumerate(obs['states']):
         w = wf_state(st)
@@ -458,10 +530,10 @@ def py_check(case, obs):
         op = case['ops'][n_ok]
         dimids = {k for k, n, u in cur['dims']}
         # a variable named like a dimension is taken as its coordinate by the library: only the 1-D coordinate-variable convention is in domain
-        coord_ok = all(vd == [k] for k, vd, sh, m, at in cur['vars'] if k in dimids)
+        coord_ok = all(vd == [k] for k, vd, sh, m, at, cm in cur['vars'] if k in dimids)
         if all(d in have for d, a in op['funs']) and all(n > 0 for k, n, u in cur['dims']) and not wf_state(cur) and coord_ok:
             why.append('applyAlongDimensions(%s) raised %s' % (op['funs'], obs['raised']))
-            if any(a[0] in ('scalar', 'dict') for d, a in op['funs']):
+            if any(a[0] == 'scalar' for d, a in op['funs']):
                 region = 2
     return dict(s_ok=not why, why='; '.join(why), region=region)
 
@@ -478,6 +550,8 @@ def shrink(case):
     for i in range(len(ops) - 1, -1, -1):
         yield dict(case, ops=ops[:i] + ops[i + 1:])
     init = case['init']
+    if init['how'] == 'ioapi':
+        return
     for i in range(len(init['vars'])):
         vs = init['vars'][:i] + init['vars'][i + 1:]
         if vs:
@@ -552,7 +626,7 @@ def gen_op(rng, st, malformed):
     dims = [(NAMES[k], n) for k, n, u in st['dims']]
     dn = [d for d, _ in dims]
     dl = dict(dims)
-    vs = [(NAMES[k], [NAMES[d] for d in vd], sh) for k, vd, sh, m, at in st['vars']]
+    vs = [(NAMES[k], [NAMES[d] for d in vd], sh) for k, vd, sh, m, at, cm in st['vars']]
     vn = [v[0] for v in vs]
     fresh_d = [d for d in DIMPOOL + ['w', 'q'] if d not in dn]
     fresh_v = [v for v in VARPOOL + ['N', 'M'] if v not in vn]
@@ -649,7 +723,7 @@ def gen_op(rng, st, malformed):
         for d in ds:
             a = rng.choice([['named', rng.choice(['mean', 'sum', 'max', 'min'])], ['named', 'mean'], ['half'], ['diff'], ['cum'],
                             ['first', rng.randint(1, 3)], ['rep'], ['scalar']] + ([['dict']] if rng.random() < 0.15 else []))
-            if a[0] == 'diff' and dl[d] < 2:
+            if a[0] in ('diff', 'dict') and dl[d] < 2:
                 a = ['cum']
             funs.append([d, a])
         if bad and 'q' not in dn:
@@ -685,12 +759,17 @@ def gen_op(rng, st, malformed):
         if not vn:
             return dict(op='copy')
         # masked 0-d operands and mixed masked/unmasked operands follow numpy.ma priority rules that are not modelled
-        mk = {NAMES[k_]: m_ for k_, vd_, sh_, m_, at_ in st['vars']}
-        rk = {NAMES[k_]: len(sh_) for k_, vd_, sh_, m_, at_ in st['vars']}
+        mk = {NAMES[k_]: m_ for k_, vd_, sh_, m_, at_, cm_ in st['vars']}
+        rk = {NAMES[k_]: len(sh_) for k_, vd_, sh_, m_, at_, cm_ in st['vars']}
         okv = [v for v in vn if not (mk[v] and rk[v] == 0)]
         if not okv:
             return dict(op='copy')
-        key = rng.choice(fresh_v) if (rng.random() < 0.75 and fresh_v) else rng.choice(vn)
+        unm = [v for v in vn if not mk[v]]
+        if not unm and not fresh_v:
+            return dict(op='copy')
+        if not unm:
+            unm = fresh_v
+        key = rng.choice(fresh_v) if (rng.random() < 0.75 and fresh_v) else rng.choice(unm)   # an existing masked target is the 'first variable' (masked + scalar value raises)
         a = 'Q' if bad else rng.choice(okv)
         r = rng.random()
         if r < 0.45:
@@ -723,6 +802,77 @@ def gen_op(rng, st, malformed):
     return dict(op='copy')
 
 
+def gen_io_sel(rng, n, kind):
+    if kind == 'int':
+        return ['int', rng.randint(-n, n - 1)]
+    if kind == 'slice':
+        return ['slice', rng.choice([None, 0, rng.randint(-n, n)]), rng.choice([None, n, rng.randint(-n, n)]), rng.choice([None, 1, 2, -1])]
+    return ['list', [rng.randint(0, n - 1) for _ in range(rng.randint(1, 3))]]
+
+
+def gen_io_op(rng, st):
+    """IOAPI stream: mostly multi-dimension slice calls mixing list / int / slice selectors"""
+    dl = {k: n for k, n, u in st['dims'] if k in ('TSTEP', 'LAY', 'ROW', 'COL')}
+    data = [k for k, vd, sh, aok in st['vars'] if k != 'TFLAG']
+    k = rng.choice(['slice'] * 6 + ['apply', 'subset', 'copy', 'mask', 'eval', 'stack', 'renamevar'])
+    if k == 'slice' and dl:
+        ds = rng.sample(sorted(dl), min(rng.choice([1, 2, 2, 3]), len(dl)))
+        if 'ROW' in dl and 'COL' in dl and rng.random() < 0.6:
+            ds = sorted(set(ds) | {'ROW', 'COL'})
+        kinds = [rng.choice(['int', 'slice', 'list']) for _ in ds]
+        if len(ds) >= 2 and rng.random() < 0.5:
+            kinds[rng.randrange(len(ds))] = 'list'          # one list combined with ints / slices
+        m = None
+        sels = []
+        for d, kd in zip(ds, kinds):
+            sel = gen_io_sel(rng, dl[d], kd)
+            if kd == 'list':                                # several lists must have one length
+                if m is None:
+                    m = len(sel[1])
+                sel = ['list', [rng.randint(0, dl[d] - 1) for _ in range(m)]]
+            sels.append([d, sel])
+        return dict(op='slice', sels=sels)
+    if k == 'apply' and dl:
+        d = rng.choice(sorted(dl))
+        return dict(op='apply', funs=[[d, rng.choice([['named', 'mean'], ['half'], ['named', 'max'], ['first', 2]])]])
+    if k == 'subset' and data:
+        return dict(op='subset', keys=[v for v in data if rng.random() < 0.6] or [data[0]])
+    if k == 'mask':
+        return dict(op='mask', how='greater', mdims=None, wshape=None, withcoords=False)
+    if k == 'eval' and data:
+        return dict(op='eval', key='N', expr=['scale', rng.choice(data)], copyall=rng.random() < 0.5)
+    if k == 'stack' and 'TSTEP' in dl:
+        return dict(op='stack', d='TSTEP', others=[['self']], aslist=False)
+    if k == 'renamevar' and data and 'M' not in data:
+        return dict(op='renamevar', pairs=[[rng.choice(data), 'M']])
+    return dict(op='copy')
+
+
+def gen_io_case(rng):
+    import numpy as np
+    vs = rng.sample(['A', 'B', 'C'], rng.randint(1, 2))
+    init = dict(how='ioapi', nt=rng.randint(1, 3), nl=rng.randint(1, 3), nr=rng.randint(2, 4), nc=rng.randint(2, 4), vars=vs,
+                vars2d=(['D'] if rng.random() < 0.4 else []), dims=[], gattrs=[], coords=[])
+    ops = []
+    try:
+        with np.errstate(all='ignore'):
+            f = build(init)
+            st = observe(f)
+            for j in range(rng.randint(1, 4)):
+                op = gen_io_op(rng, st)
+                ops.append(op)
+                try:
+                    f, _ = apply_op(f, op)
+                    st = observe(f)
+                except Exception:
+                    break
+                if not st.get('io') or wf_io(st) or any(n_ == 0 for _, n_, _ in st['dims']):
+                    break
+    except Exception:
+        pass
+    return dict(kind='ioapi:' + (ops[-1]['op'] if ops else 'none'), init=init, ops=ops)
+
+
 def gen(rng, n, tier):
     import tempfile, shutil, warnings
     import numpy as np
@@ -731,6 +881,9 @@ def gen(rng, n, tier):
     work = tempfile.mkdtemp(dir=os.path.join(C.VERIF, '.work'))
     try:
         for i in range(n):
+            if rng.random() < 0.2:
+                out.append(gen_io_case(rng))
+                continue
             init = gen_init(rng, tier)
             malformed = rng.random() < (0.3 if tier == 'search' else 0.2)
             nops = rng.randint(1, 5)
@@ -739,8 +892,13 @@ def gen(rng, n, tier):
                 with np.errstate(all='ignore'):
                     f = build(init, work)
                     st = observe(f)
+                    tainted = False
+                    if any(n_ == 0 for _, n_, _ in st['dims']):
+                        nops = 0        # an unused unlimited dimension is read back with length 0: zero-length dimensions are not modelled
                     for j in range(nops):
                         op = gen_op(rng, st, malformed and j == nops - 1)
+                        if tainted and op['op'] in ('eval', 'reorder'):
+                            op = dict(op='copy')      # see ASSUMPTIONS: hidden numpy.ma state after file arithmetic
                         if j == 0 and init['how'] == 'reader' and op['op'] in ('eval', 'stack', 'reorder'):
                             op = dict(op='copy')      # these raise TypeError/AttributeError on netCDF4-backed objects (noted, not modelled)
                         ops.append(op)
@@ -749,6 +907,7 @@ def gen(rng, n, tier):
                             st = observe(f)
                         except Exception:
                             break
+                        tainted = (op['op'] == 'binop') or (tainted and op['op'] == 'reorder')
                         if wf_state(st):
                             break           # ill-formed result: nothing is claimed about later steps
                         if any(n == 0 for _, n, _ in st['dims']):
